@@ -62,7 +62,7 @@ TRUSTED = ["OpenMPI, mpicxx/libstdc++, ASan/UBSan", "harness/mpi_c06.cc (generat
 def batches(tier, seed):
     res = []
     if tier == "quick":
-        plan = [(1, 200), (2, 350), (3, 350), (4, 300)]
+        plan = [(1, 200), (2, 300), (3, 300), (4, 250)]
         reps = 1
     else:
         plan = [(1, 600), (2, 900), (3, 900), (4, 800), (5, 500), (6, 400), (7, 250), (8, 250)]
